@@ -3,7 +3,9 @@
 case = {"gen": kind, "max": M, "min": m, "split": bool, "rows": [[tomo_id, subtomo_id, ex,ey,ez, xx,xy,xz, g4, p1..p9, o, k], ...],
         "xpay": bool, "form": "motl"|"df", "call": {...}, "second": {"how": "moved"|"rethreshold", "rows", "max", "min"}}
         + optional axes of audit round 2: "labels": None|"gaps"|"shuffled"|"dup"|"differ" (row labels of the two DataFrames), "ints": bool (int64
-        columns), "num": "float"|"int"|"np64" (type of max/min_distance), "paydiv": 8|100|1 (unit of p1..p9), "coincide"/"far": generator notes
+        columns), "num": "float"|"int"|"np64" (type of max/min_distance), "paydiv": 8|100|1 (unit of p1..p9), "coincide"/"far": generator notes;
+        audit 3: "form" also "emmotl"|"relion"|"stopgap"|"path", "alias": bool (one object is both lists; needs "sym": exit sites = entry sites,
+        tie filter noties()), "splitseed": int (x = floor(c) + k), "shiftoff": {tomo_id: [ox,oy,oz]} (x = floor(c) - offset, shift = offset + fraction)
 All lengths are integers in units of 2^-10 (S = 1024): entry site e, exit site x, max/min distance, the value g4 the input list carries
 in the distance column.  p1..p9 (units of 1/8) are the values of the nine fields tracing has no business with (score, geom1,
 subtomo_mean, geom3, geom5, phi, psi, theta, class), o/k the stale object/order numbers of the input lists; rows of length 9 (hand-written
@@ -35,6 +37,16 @@ RULE = ("paired entry/exit particle lists, 2..60 particles in 1..3 tomograms (ro
         "A second/third tomogram holds a SINGLE particle in a third of the multi-tomogram cases (corpus single_particle_tomograms); 15 % of the "
         "cases lie 2^15..2^17 units from the origin, one offset per tomogram (27-bit coordinates: exact in float64, not in float32; corpus "
         "far_from_origin_float32); quick draws up to 60 particles in 5 % of its cases. "
+        "SYMMETRIC STREAM (7 %): every exit site is the particle's own entry site (the geometry of trace_chains(df, df, ...), structure.py:87), "
+        "filtered by noties() - literally Props NoTies plus the two boundary exclusions - instead of the stronger tie_free, so that "
+        "d(i,j) = d(j,i) is allowed and the equality branch of first_dist <= nm_dist is taken; two thirds of these cases make the ALIASED "
+        "call (one object is both lists; corpus aliased_relion_object, aliased_dataframe). "
+        "POSITION/SHIFT SPLIT: half of the non-integer cases split every coordinate into x + shift_x: at floor(c), at floor(c) + k with "
+        "k in -8..8 per cell (negative shifts, shifts >= 1), or - half of the far-from-origin cases - with the 2^15..2^17 offset in the shift "
+        "column (27-bit shifts; corpus shift_columns_hold_offset). "
+        "HAND-OVER: base Motl objects (9/21), bare DataFrames (4/21), EmMotl / RelionMotl / StopgapMotl objects (5/21: what Motl.load(path) "
+        "gives real callers), paths of EM files written from the tables (3/21, where every value is float32-exact and no second in-place call "
+        "follows; else EmMotl objects). "
         "INPUT FORMS (H3): 7 % all-integer lists passed as int64 columns (lengths in whole units, max/min as python int), row labels of the "
         "two DataFrames default / with gaps / in another order / repeated / different between entry and exit list (4 in 7 non-default), "
         "max/min_distance as python float, python int or numpy float64, free fields in units of 1/8 or of 1/100 (two decimals). "
@@ -205,6 +217,20 @@ class _Normalise(ast.NodeTransformer):
         return n
 
 
+class _Orient(ast.NodeTransformer):
+    """one spelling per comparison (applied AFTER the renaming, so that the order below does not depend on local names): `a > b` is
+    written `b < a`, `a >= b` is `b <= a`, and the operands of `==` / `!=` are put in the order of their syntax-tree dumps"""
+    def visit_Compare(self, n):
+        self.generic_visit(n)
+        if len(n.ops) == 1:
+            a, b, op = n.left, n.comparators[0], n.ops[0]
+            if isinstance(op, (ast.Gt, ast.GtE)):
+                n.left, n.comparators, n.ops = b, [a], [ast.Lt() if isinstance(op, ast.Gt) else ast.LtE()]
+            elif isinstance(op, (ast.Eq, ast.NotEq)) and ast.dump(b) < ast.dump(a):
+                n.left, n.comparators = b, [a]
+        return n
+
+
 def _commuting_key(st):
     """`name[index] = <constant>`: (name, names used in the index) - two such statements on different arrays whose indices mention
     neither array commute"""
@@ -299,7 +325,7 @@ def _canon(fn):
             n.id = ren[n.id]
         elif isinstance(n, ast.arg) and n.arg in ren:
             n.arg = ren[n.arg]
-    return fn
+    return _Orient().visit(fn)
 
 
 def _h(text, hexdigits):
@@ -334,12 +360,12 @@ def _first_difference(name, fn):
 
 # first 60 bits of sha256(ast.dump) of the canonical function (pinned source = documented behaviour), and 32 bits per statement (used only
 # to SAY where a body left the documented one); regenerate both with `python harness/props/c19.py --pin` after a reviewed source change
-DOC_DIGEST = {"get_nn_dist": 1055860760988674168, "add_chain_suffix": 209518513822851188, "add_chain_prefix": 723751338633858201, "trace_chains": 135505728656664680}
+DOC_DIGEST = {"get_nn_dist": 1053225336426693692, "add_chain_suffix": 797955773933724064, "add_chain_prefix": 654672493014163097, "trace_chains": 703771148035791459}
 DOC_STMTS = {
-    "get_nn_dist": [598203922, 386834683, 4247707376, 1970421366, 795153781, 940266538, 460173116, 2817818743, 795153781, 1111428338, 3201678449, 2817818743, 795153781, 1202893040],
-    "add_chain_suffix": [4025989485, 472120772, 962167434, 3546049063, 2102560924, 3716562597, 300960261, 2333805407, 4294352404, 962167434, 3964676271, 2774071519, 2479278400, 1250882704],
-    "add_chain_prefix": [4025989485, 3795037316, 4094545250, 300960261, 4290093041, 1135940587, 2541655772, 2102560924, 3432075589, 3940650396, 2301813156, 3023442724, 2952730989, 2301813156, 385666276, 647750314, 1897081480, 1522620345, 2576499214, 3662318516, 1135940587, 3195738721, 40715951],
-    "trace_chains": [4103463029, 1030781239, 2182142268, 3264356200, 959580664, 3986354281, 3588262425, 2247169354, 2495444196, 3398929445, 2427861931, 1716391557, 3427232504, 2621752142, 618523232, 2161726897, 4134213810, 1392530678, 2178886612, 4282582453, 1135367759, 1025378986, 3416076142, 343489244, 557529552, 1754431344, 1086304907, 1944639200, 37386759, 2396450039, 2504586115, 659180471, 3214803045, 1689619379, 2610722812, 1683977303, 1267025802, 299592184, 3497906487, 776297910, 2486635516, 1043350328, 4107557983, 2065645881, 1535898049, 1561311945, 2618181280, 427141853, 3540976909, 1283880863, 1427749306, 1824885914, 2549451903, 2112781308, 106223662, 1999657488, 433983445, 264832955, 3624077335, 3893709466, 753892211, 2423700165, 2112781308, 106223662, 1999657488, 3293194405, 38310862, 918454776, 2594827503, 1278021872, 1947166046, 214029937, 4107557983, 1477840531, 709247826, 3943175248, 3045284863, 3949440750, 686553432, 2793767635, 634318412, 68032109, 3177393923, 2409178351],
+    "get_nn_dist": [598203922, 386834683, 4247707376, 1970421366, 795153781, 3655337472, 2322249682, 2817818743, 795153781, 41341619, 3101658266, 2817818743, 795153781, 1202893040],
+    "add_chain_suffix": [4025989485, 3673189764, 2447650003, 3546049063, 2102560924, 3716562597, 300960261, 126586224, 3344031989, 2447650003, 3942858200, 2774071519, 2479278400, 1250882704],
+    "add_chain_prefix": [4025989485, 3416593902, 1184218921, 300960261, 4290093041, 3587423916, 1688046492, 2102560924, 3432075589, 88355768, 2301813156, 2856430906, 75100751, 2301813156, 385666276, 647750314, 2921177528, 1522620345, 3318185765, 712110363, 3587423916, 3195738721, 40715951],
+    "trace_chains": [4103463029, 1030781239, 2182142268, 3264356200, 959580664, 3986354281, 3588262425, 2247169354, 2495444196, 3398929445, 2427861931, 1716391557, 3427232504, 2621752142, 618523232, 2161726897, 4134213810, 1392530678, 2178886612, 4282582453, 1135367759, 1025378986, 3416076142, 343489244, 557529552, 1754431344, 1086304907, 1944639200, 37386759, 2396450039, 2504586115, 659180471, 3214803045, 1689619379, 2610722812, 4129274013, 1267025802, 299592184, 3497906487, 776297910, 2486635516, 1043350328, 4107557983, 2065645881, 1535898049, 1561311945, 2618181280, 427141853, 3540976909, 1283880863, 1427749306, 1824885914, 3219386583, 2112781308, 106223662, 1999657488, 433983445, 264832955, 3624077335, 1576009865, 2499062511, 2423700165, 2112781308, 106223662, 1999657488, 3293194405, 38310862, 918454776, 2594827503, 1278021872, 1947166046, 214029937, 4107557983, 1477840531, 859357182, 3943175248, 3045284863, 3949440750, 686553432, 2793767635, 634318412, 68032109, 3177393923, 2409178351],
 }
 
 
@@ -682,6 +708,36 @@ def tie_free(case):
     return True
 
 
+def noties(case):
+    """literally Props/C19 `NoTies`, per tomogram: no two ENTRY sites at the same in-window distance from one EXIT site and no two EXIT
+    sites at the same in-window distance from one ENTRY site (window (min, max], squared) - plus the two boundary exclusions of tie_free
+    (no distance between different particles equal to max or to a positive min).  Weaker than tie_free: equal distances from DIFFERENT
+    query sites are allowed, so symmetric layouts (entry list == exit list: d(i,j) = d(j,i)) pass."""
+    hi, lo = case["max"] ** 2, case["min"] ** 2
+    if case["max"] <= 0 or case["min"] < 0 or case["min"] >= case["max"]:
+        return False
+    keys = {(r[0], r[1]) for r in case["rows"]}
+    if len(keys) != len(case["rows"]):
+        return False
+    for rows in _tomos(case)[1]:
+        for i, a in enumerate(rows):
+            fwd, bwd = set(), set()
+            for j, b in enumerate(rows):
+                for v, seen in ((_d2(a[5:8], b[2:5]), fwd), (_d2(b[5:8], a[2:5]), bwd)):
+                    if i != j and (v == hi or (lo > 0 and v == lo)):
+                        return False
+                    if lo < v <= hi:
+                        if v in seen:
+                            return False
+                        seen.add(v)
+    return True
+
+
+def admissible(case):
+    """the tie filter of a case: NoTies itself for the symmetric stream, the stronger tie_free everywhere else"""
+    return noties(case) if case.get("sym") else tie_free(case)
+
+
 # ------------------------------------------------------------------ generators
 def _rvec(rng, length):
     while True:
@@ -867,7 +923,13 @@ def _build(rng, tier):
             kinds[t] += "1"
     tomos = [[(list(e), list(x)) for e, x in t] for t in tomos]
     flags = {}
-    if rng.random() < 0.14 and _coincide(rng, tomos):
+    if rng.random() < 0.07:
+        # symmetric stream (audit 3): every exit site IS the particle's own entry site - the geometry of trace_chains(df, df, ...) as
+        # structure.py calls it; d(i,j) = d(j,i), so a single particle sees the same neighbour at the same distance on both sides and the
+        # equality branch of `first_dist <= nm_dist` is taken.  Filtered by noties() (= Lean NoTies), which tie_free would never pass.
+        flags["sym"] = True
+        tomos = [[(e, list(e)) for e, _ in t] for t in tomos]
+    if "sym" not in flags and rng.random() < 0.14 and _coincide(rng, tomos):
         flags["coincide"] = True
         if rng.random() < 0.75:
             mind = 0.0
@@ -882,12 +944,17 @@ def _build(rng, tier):
     elif rng.random() < 0.15:
         # coordinates that need more than 24 bits: far from the origin by 2^15..2^17 units per tomogram (exact in float64, not in float32)
         flags["far"] = True
+        offs = []
         for t in tomos:
             off = [rng.choice([-1, 1]) * rng.randint(2 ** 15, 2 ** 17) for _ in range(3)]
+            offs.append(off)
             for e, x in t:
                 for k in range(3):
                     e[k] += off[k]; x[k] += off[k]
     tids = rng.sample(range(1, 400), len(tomos))
+    if flags.get("far") and rng.random() < 0.5:
+        # the offset sits in the SHIFT columns (x,y,z small, shift_* = 2^15..2^17 + fraction: 27 bits, exact in float64 only)
+        flags["shiftoff"] = {str(tids[t]): offs[t] for t in range(len(tomos))}
     seq = [t for t, ps in enumerate(tomos) for _ in ps]
     if rng.random() < 0.6:
         rng.shuffle(seq)  # interleave tomograms; the order inside a tomogram is kept
@@ -904,8 +971,10 @@ def _build(rng, tier):
         if ints:
             g4 = (g4 // S) * S
         rows.append([tids[t], sid] + _q(e) + _q(x) + [g4])
-    return dict(gen="+".join(kinds), max=int(round(maxd * S)), min=int(round(mind * S)), rows=rows,
-                split=(rng.random() < 0.5 and not ints), **flags)
+    split = (rng.random() < 0.5 and not ints) or "shiftoff" in flags
+    if split and "shiftoff" not in flags and rng.random() < 0.6:
+        flags["splitseed"] = rng.randint(1, 10 ** 6)   # x = floor(c) + k, k in -8..8 per cell: negative shifts and shifts >= 1
+    return dict(gen="+".join(kinds), max=int(round(maxd * S)), min=int(round(mind * S)), rows=rows, split=split, **flags)
 
 
 NONDEFAULT_COLS = ["geom1", "geom3", "geom5", "score", "subtomo_mean", "class"]
@@ -925,10 +994,25 @@ def _decorate(rng, case):
         stale = [rng.choice([0, 0, -1, 1, 2, rng.randint(1, 70)]), rng.choice([0, 0, 1, 2, rng.randint(-3, 70)])]
         r.extend(pay + stale)
     case["xpay"] = rng.random() < 0.3            # the exit list carries its own values in the other fields
-    case["form"] = "df" if rng.random() < 0.2 else "motl"   # lists passed as Motl objects or as bare DataFrames
+    # how the lists are handed over: base Motl objects, bare DataFrames, objects of the SUBCLASSES Motl.load(path) gives real callers
+    # (EmMotl / RelionMotl / StopgapMotl), or paths of EM files written from the tables (decided below: needs float32-exact values)
+    case["form"] = rng.choice(["motl"] * 9 + ["df"] * 4 + ["emmotl", "emmotl", "relion", "relion", "stopgap", "path", "path", "path"])
+    if case.get("sym") and rng.random() < 0.65:
+        # the ALIASED call trace_chains(obj, obj, ...): one object is both lists (structure.py:87)
+        case["alias"] = True
+        case["xpay"] = False
     # row labels of the two DataFrames (Motl(df) keeps them): default RangeIndex, gaps (rows were removed), another order (the list was
     # sorted), repeated labels (lists concatenated without ignore_index - what trace_chains itself returns), entry and exit labelled differently
     case["labels"] = rng.choice([None, None, None, "gaps", "shuffled", "dup", "differ"])
+    if case.get("alias") and case["labels"] == "differ":
+        case["labels"] = "gaps"
+    if case["form"] == "path":
+        # an EM file holds float32 and no row labels: the file form is used where the tables survive that unchanged
+        case["labels"] = None
+        if case["paydiv"] == 100:
+            case["paydiv"] = 8
+        if ints or not _f32_exact(case):
+            case["form"] = "emmotl"
     # max/min_distance as python float, python int (whole numbers only) or numpy float64
     whole = case["max"] % S == 0 and case["min"] % S == 0
     case["num"] = rng.choice(["float", "float", "np64"] + (["int", "int"] if whole else []))
@@ -959,9 +1043,16 @@ def _decorate(rng, case):
         m2 = rng.choice([0, case["max"] // 8, case["max"] // 3])
         M2 = rng.choice([case["max"] // 2, case["max"] * 2, case["max"] + S // 2])
         sec = dict(how="rethreshold", rows=[list(r) for r in case["rows"]], max=M2, min=m2)
-        if tie_free(dict(case, **sec)):
+        if admissible(dict(case, **sec)):
             case["second"] = sec
+    if case.get("second") and case["form"] == "path" and case["second"].get("how") == "moved":
+        case["form"] = "emmotl"    # "the caller edits the same lists in place" has no meaning for files
     return case
+
+
+def _f32_exact(case):
+    import struct
+    return all(struct.unpack("f", struct.pack("f", v))[0] == v for which in ("entry", "exit") for row in _table(case, which) for v in row)
 
 
 def _moved(rng, case):
@@ -989,7 +1080,7 @@ def generate(rng, tier, n):
     made = 0
     while made < n:
         case = _build(rng, tier)
-        ok = tie_free(case)
+        ok = admissible(case)
         tries = 0
         while not ok and tries < 8:  # re-jitter by a few grid steps (whole units in an all-integer list); coinciding sites move together
             step = S if case.get("ints") else 1
@@ -1000,7 +1091,7 @@ def generate(rng, tier, n):
                     if site not in moved:
                         moved[site] = [c + step * rng.randint(-2, 2) for c in r[lo:lo + 3]]
                     r[lo:lo + 3] = moved[site]
-            ok = tie_free(case); tries += 1
+            ok = admissible(case); tries += 1
         if not ok or not (2 <= len(case["rows"]) <= 60):
             continue
         made += 1
@@ -1047,6 +1138,10 @@ def shrink(case):
         yield dict(case, form="motl")
     if case.get("labels"):
         yield dict(case, labels=None)
+    if case.get("form") in ("emmotl", "relion", "stopgap", "path"):
+        yield dict(case, form="motl")
+    if case.get("splitseed"):
+        yield {k: v for k, v in case.items() if k != "splitseed"}
     if case.get("ints"):
         yield dict(case, ints=False)
     if case.get("num", "float") != "float":
@@ -1071,7 +1166,7 @@ def shrink(case):
         yield c
     if case["min"] != 0 and not sec:
         c = dict(case, min=0)
-        if tie_free(c):
+        if admissible(c):
             yield c
 
 
@@ -1087,6 +1182,8 @@ XPAY_OFFSET = 4096.0   # what the exit list adds to every free field when it car
 def _table(case, which):
     """the 20 columns of the entry ("entry") or exit ("exit") list of a single-call case, as python floats, rows in list order;
     written without pandas: this is also what the output rows are compared with"""
+    if case.get("alias"):
+        which = "entry"     # the aliased call: ONE table is both lists
     lo = 2 if which == "entry" else 5
     own = which == "exit" and case.get("xpay")
     out = []
@@ -1096,6 +1193,11 @@ def _table(case, which):
         c = [v / S for v in r[lo:lo + 3]]
         if case.get("split"):
             whole = [float(math.floor(v)) for v in c]
+            if case.get("shiftoff"):
+                whole = [w - o for w, o in zip(whole, case["shiftoff"][str(r[0])])]
+            elif case.get("splitseed"):
+                # position and shift are split anywhere, not at floor(c): shift in (-8, 9), a function of the case only
+                whole = [w + ((case["splitseed"] * 31 + r[1] * 7 + r[0] * 13 + k * 3 + lo) % 17 - 8) for k, w in enumerate(whole)]
             d["x"], d["y"], d["z"] = whole
             d["shift_x"], d["shift_y"], d["shift_z"] = [a - b for a, b in zip(c, whole)]
         else:
@@ -1387,16 +1489,33 @@ def run_impl(case):
         pass
     calls = _calls(case)
     out = []
-    owned = given = None
+    owned = given = tmpdir = None
     for k, cc in enumerate(calls):
         if _CONFIRMED[0] >= 2:
             out.append({"skipped": "two calls of this process did not return (each confirmed on a second attempt); not run"})
             continue
         if k == 0:
             owned = [_frame(cc, "entry"), _frame(cc, "exit")]
-            given = owned if cc.get("form") == "df" else [cryomotl.Motl(owned[0]), cryomotl.Motl(owned[1])]
-            if given is not owned and (given[0].df is not owned[0] or given[1].df is not owned[1]):
-                owned = [given[0].df, given[1].df]
+            if cc.get("alias"):
+                owned = [owned[0], owned[0]]          # ONE object is both lists
+            form = cc.get("form", "motl")
+            if form == "df":
+                given = owned
+            elif form == "path":
+                import tempfile, os
+                tmpdir = tempfile.mkdtemp(prefix="c19_")
+                given = []
+                for o, nm in zip(owned, ("entry.em", "exit.em")):
+                    pth = os.path.join(tmpdir, nm)
+                    if not (given and cc.get("alias")):
+                        cryomotl.EmMotl(o.copy(deep=True)).write_out(pth)
+                    given.append(given[0] if (given and cc.get("alias")) else pth)
+            else:
+                cls = {"motl": cryomotl.Motl, "emmotl": cryomotl.EmMotl, "relion": cryomotl.RelionMotl, "stopgap": cryomotl.StopgapMotl}[form]
+                first = cls(owned[0])
+                given = [first, first if cc.get("alias") else cls(owned[1])]
+                if given[0].df is not owned[0] or given[1].df is not owned[1]:
+                    owned = [given[0].df, given[1].df]
         elif cc.get("how") == "moved":
             # the caller edits the SAME lists in place (legitimately: the particles were re-positioned) and traces again
             for o, which in zip(owned, ("entry", "exit")):
@@ -1404,6 +1523,9 @@ def run_impl(case):
                 for c in COORD_COLS:
                     o[c] = new[c].to_numpy()
         out.append(_one_call(ribana, cc, given, owned))
+    if tmpdir:
+        import shutil
+        shutil.rmtree(tmpdir, ignore_errors=True)
     return {"calls": out}
 
 
@@ -1434,12 +1556,12 @@ def _decode(case, obs):
         # (differences of <= 28-bit coordinates and their squares are exact in float64) and takes a correctly rounded sqrt, so
         # g = sqrt(d2)/S * (1 + e), |e| <= 2^-53.  Then (g*S)^2 = d2 * (1 + 3e'), and since a link is <= max_distance <= 320 units
         # (40 * 8 in all-integer lists) d2 <= 1.1e11 and the absolute error is <= 4e-5: round() returns d2 itself.  The test below accepts
-        # g when it is within 1e-9 (relative) of sqrt(d2)/S: ~1e7 ulp of slack for a differently ordered float64 computation, and 60 times
+        # g when it is within 1e-9 RELATIVE (at every size, also for g < 1) of sqrt(d2)/S: ~1e7 ulp of slack for a differently ordered float64 computation, and 60 times
         # BELOW a float32 ulp (6e-8), so a value that went through single precision is accepted only where it is exact.  An accepted g
         # stands for the integer d2, which the Lean checker compares with the exact squared distance of the pair: no second tolerance.
         v = g * S
         r2 = int(round(v * v)) if (g == g and 0 <= v < 1e12) else -1
-        if r2 < 0 or abs(math.sqrt(r2) / S - g) > 1e-9 * max(1.0, g):
+        if r2 < 0 or abs(math.sqrt(r2) / S - g) > 1e-9 * g:   # purely relative (also below 1: a float32 round trip is 6e-8 relative at every size)
             r2 = -1 - abs(r2)
         out.append(list(where[key]) + [int(o), int(k), r2])
         full.append(list(where[key]) + list(row))
@@ -1522,17 +1644,21 @@ def _judge_call(case, co, rs):
         return []
     if "harness_error" in co:
         return [dict(kind="corr", clause="harness-or-library-raised", detail=co["harness_error"])]
-    if mode == "dist":
-        return []     # non-default distance column: outside the statement, observed in stats only (see RULE)
     fs = []
+    # outside the statement's configuration (non-default store columns) a finding is never more than a correspondence finding
+    off = (lambda f: dict(f, kind="corr", clause="nondefault-store-columns/" + f["clause"])) if mode in ("dist", "idx") else (lambda f: f)
     if co.get("input_changed"):
         # the statement is silent about the caller's lists: a correspondence finding (the model copies, never edits), not a violation of a clause
         fs.append(dict(kind="corr", clause="caller-lists-unchanged", detail="; ".join(co["input_changed"])))
     if "error" in co:
         clause = "does-not-return" if co["error"].startswith("TimeoutError") else "raises"
-        return fs + [dict(kind="spec", clause=clause, detail=co["error"] + " @" + co.get("where", ""))]
+        return fs + [off(dict(kind="spec", clause=clause, detail=co["error"] + " @" + co.get("where", "")))]
     if "malformed" in co:
-        return fs + [dict(kind="spec", clause="every-particle-exactly-once", detail=co["malformed"])]
+        return fs + [off(dict(kind="spec", clause="every-particle-exactly-once", detail=co["malformed"]))]
+    if mode == "dist":
+        # non-default distance column: the returned table is outside the statement and observed in stats only (see RULE); a call that
+        # raises, does not return or returns no table is reported above all the same
+        return fs
     if co.get("nonnum"):
         fs.append(dict(kind="spec", clause="numeric-field-returned-as-text",
                        detail="; ".join(f"column {c} row {i}: {v}" for c, i, v in co["nonnum"][:4])))
@@ -1661,10 +1787,13 @@ def stats(case, obs, resps):
           "dist": "non-default distance column (observed only)"}[_store(case)[3]],
          "lists_passed_as": case.get("form", "motl"),
          "row_labels": case.get("labels") or "default",
+         "aliased_call (one object is both lists)": "yes" if case.get("alias") else "no",
+         "position_shift_split": "none" if not case.get("split") else "offset in shift columns" if case.get("shiftoff") else
+         "floor + k, k in -8..8" if case.get("splitseed") else "floor",
          "column_dtype_in": "int64" if case.get("ints") else "float64",
          "distance_argument_type": case.get("num", "float"),
          "free_fields_unit": f"1/{case.get('paydiv', 8)}",
-         "geometry_extras": [k for k in ("coincide", "far") if case.get(k)] or ["none"],
+         "geometry_extras": [k for k in ("coincide", "far", "sym") if case.get(k)] or ["none"],
          "single_particle_tomograms": sum(1 for rows in _tomos(case)[1] if len(rows) == 1),
          "coinciding_exit_entry_pairs": sum(1 for rows in _tomos(case)[1] for i, a in enumerate(rows) for j, b in enumerate(rows)
                                             if i != j and a[5:8] == b[2:5]),
@@ -1742,7 +1871,8 @@ LEVEL_TEXT = ("Lean 4 theorems about an executable model of trace_chains/get_nn_
 LEVEL_NOTE = ("trusted: Lean kernel; translator anchors (34: 14 comparison/bookkeeping operators used by the model + 11 numbering "
               "constants/shift expressions the model hard-codes, all read from the functions after renaming parameters/locals to the documented "
               "names by binding position and normalising what changes no behaviour (type annotations, docstrings, message texts, `not (a > b)`, "
-              "operand order of a comparison, order of adjacent independent constant stores); syntax-tree digests of the four whole function bodies (bodies_documented: every statement, also in "
+              "operand order of a comparison (`a > b` is hashed as `b < a`, `==`/`!=` operands in a fixed order: _Orient), order of adjacent independent "
+              "constant stores); syntax-tree digests of the four whole function bodies (bodies_documented: every statement, also in "
               "branches no case executes); the signature defaults and keyword names (defaults_documented, store_documented); the argument lists "
               "of the two merge-helper calls (merge_calls_as_observed)); KD-tree radius query = brute force (probed); squared-distance decoding "
               "of the distance column in the harness; the model-to-code tie is the exact comparison of rows, recorded distances AND of the "
